@@ -61,7 +61,7 @@ def base_capture(name, seed):
 def alternatives(name, lines, npkts, tier, for_pairs=False):
     """dimension -> list of alternative values (each JSON-serialisable)"""
     L = len(lines)
-    alts = {}
+    alts = {"container": ["pcapng_be"]}        # the capture (and every DSB in it) in big-endian byte order
     perms = [list(p) for p in itertools.permutations(range(L))][1:]
     if for_pairs and (tier == "quick" or L > 5):
         reps = [list(range(L))[::-1]] + [list(range(i, L)) + list(range(i)) for i in range(1, L)]
@@ -197,7 +197,7 @@ def execute(pkts, lines, var, judge_cli=False):
     elif k == "dsb_only":
         items.insert(0, pcapio.dsb(to_text(ls, eol)))
         cwd = {"repo": harness.SRC, "root": "/", "tmp": None}[dl["cwd"]]
-    data = pcapio.write_pcapng(items, pre_idb_raw=[pcapio.dsb(t) for t in pre])
+    data = pcapio.write_pcapng(items, endian=">" if var.get("container") == "pcapng_be" else "<", pre_idb_raw=[pcapio.dsb(t) for t in pre])
     if judge_cli:
         return harness.run_cli(data, keyfile, cwd=cwd)
     return harness.run_tlexport(data, keyfile, cwd=cwd)
